@@ -83,6 +83,30 @@ partial def runDecs (mc : MCfg) (hook : Hook) (st : DState) (inp : Bytes) (acc :
     runDecs mc hook st' rest (s!"OK {renderResolved st' v} {inp.length - rest.length}" :: acc) (n - 1)
   | (.error e, _, _) => " | ".intercalate (s!"ERR {classOf e}" :: acc).reverse
 
+/-- One letter per cut position k = 0 … len-1: the outcome of decoding the first k bytes. -/
+def cutLetter (r : M GoVal × DState × Bytes) : Char :=
+  match r.1 with
+  | .ok _ => 'V'
+  | .error .eof => 'E'
+  | .error .unexpectedEOF => 'U'
+  | .error (.panic _) => 'P'
+  | .error .unmodelled => '?'
+  | .error _ => 'O'
+
+def runCuts (mc : MCfg) (inp : Bytes) : String :=
+  let full := decode mc none {} inp
+  let head := match full with
+    | (.ok _, _, rest) => s!"OK {inp.length - rest.length}"
+    | (.error e, _, _) => s!"ERR {classOf e}"
+  let letters := (List.range inp.length).map fun k => cutLetter (decode mc none {} (inp.take k))
+  s!"{head} {String.ofList letters}"
+
+def runDecH (mc : MCfg) (hook : Hook) (inp : Bytes) : String :=
+  let r := decode mc hook {} inp
+  let st := r.2.1
+  let calls := " ".intercalate (st.calls.reverse.map (renderResolved st))
+  showDec inp.length r ++ " ; " ++ calls
+
 def ip : IsPrint := Generated.isPrint
 
 /-- Ref hook spec: `-` none; `S` object n ↦ string id "id<n>"; `T` ↦ Tuple{"cls", n};
@@ -112,6 +136,14 @@ def handle (line : String) : String :=
   | ["decref", cfg, hook, hex] =>
     match parseCfg cfg, parseHook hook, bytesOfHex? hex with
     | some c, some h, some inp => runDec (refCfg c) h inp
+    | _, _, _ => "BADCASE"
+  | ["cuts", cfg, hex] =>
+    match parseCfg cfg, bytesOfHex? hex with
+    | some c, some inp => runCuts (goCfg c) inp
+    | _, _ => "BADCASE"
+  | ["dech", cfg, hook, hex] =>
+    match parseCfg cfg, parseHook hook, bytesOfHex? hex with
+    | some c, some h, some inp => runDecH (goCfg c) h inp
     | _, _, _ => "BADCASE"
   | ["decs", cfg, hook, hex] =>
     match parseCfg cfg, parseHook hook, bytesOfHex? hex with
